@@ -193,10 +193,13 @@ func (x *X) opaqueApp(f *ssa.Function, args []Val) Val {
 				reads = fs.Reads
 			}
 		}
-		flat = append(flat, fmt.Sprint(x.heapVersionFor(reads)))
+		ver := x.heapVersionFor(reads)
+		flat = append(flat, fmt.Sprint(ver))
 		sorts = append(sorts, SInt)
+		defer x.lawsFor(f, name, ver)
 	} else if x.mode == modeVC {
-		flat = append(flat, "0")
+		// inside an axiom generated for a particular heap version (see lawsFor)
+		flat = append(flat, fmt.Sprint(x.axiomVer))
 		sorts = append(sorts, SInt)
 	}
 	rt := resultType(f.Signature)
@@ -546,4 +549,57 @@ func globToRegexp(m string) string {
 	q := regexp.QuoteMeta(m)
 	q = strings.ReplaceAll(q, `\*`, `.*`)
 	return "^" + q + "($|[#.].*)"
+}
+
+// lawsFor asserts, once per (function, heap version), the exported lemmas and
+// the contract of an opaque function, evaluated in the current state: the
+// facts hold for applications in this version of the heap.
+func (x *X) lawsFor(f *ssa.Function, name string, ver int) {
+	if x.specs == nil || x.inline {
+		return
+	}
+	key := fmt.Sprintf("%s@%d", name, ver)
+	if x.axDone == nil {
+		x.axDone = map[string]bool{}
+	}
+	if x.axDone[key] {
+		return
+	}
+	x.axDone[key] = true
+	save := x.axiomVer
+	x.axiomVer = ver
+	defer func() { x.axiomVer = save }()
+	func() {
+		defer func() {
+			if r := recover(); r != nil {
+				if _, isU := r.(unsupported); !isU {
+					panic(r)
+				}
+			}
+		}()
+		for _, m := range lemmasAbout(x.specs, name, 1<<30) {
+			mpkg := pkgOf(f)
+			if pth, ok := x.specs.ForeignOf[m]; ok {
+				mpkg = x.prog.PPkgs[pth].Types
+			} else if x.prog.PPkgs[x.specs.PkgPath] != nil && !isForeign(x.specs, m) {
+				mpkg = x.prog.PPkgs[x.specs.PkgPath].Types
+			}
+			if m.Assumed != "" {
+				x.externs["assumed lemma "+m.Name+": "+m.Assumed] = true
+			}
+			for _, ax := range x.axiomsOf(mpkg, m) {
+				x.sc.Assert(ax)
+			}
+		}
+		if fs := x.specs.Funcs[name]; fs != nil && len(fs.Ensures) > 0 {
+			for _, ax := range x.contractAxioms(pkgOf(f), f, fs) {
+				x.sc.Assert(ax)
+			}
+		}
+	}()
+}
+
+func isForeign(sp *Specs, l *Lemma) bool {
+	_, ok := sp.ForeignOf[l]
+	return ok
 }
